@@ -57,6 +57,11 @@ fn main() {
         std::process::exit(2);
     });
 
+    if args[2] == "--transcript" {
+        // second process of a C19 cross-process pair
+        std::process::exit(checks::c19::print_transcript(args.get(3).map(|s| s.as_str()).unwrap_or("")));
+    }
+
     if args[2] == "--replay" {
         if args.len() < 4 {
             usage();
